@@ -218,6 +218,21 @@ def run_history(out, case):
     el = res.election
     model = Model(el, case["cands"])
     out.label(f"rule={rule}", f"rounds={model.n - 1}")
+    # before the queries a second election of the same rule is built and dropped: the same profile
+    # with the last two candidates of a recorded tiebreak exchanging names, so that the same tied
+    # set is resolved the other way round there (answers about `el` are facts about `el` alone)
+    tbs = [tb for s_ in model.states for tb in s_["tiebreaks"]]
+    if tbs and case.get("decoy", True):
+        flat = [c for g in tbs[-1][1] for c in g]
+        if len(flat) >= 2:
+            ren = {flat[-1]: flat[-2], flat[-2]: flat[-1]}
+            bl2 = [dict(bd, r=[[ren.get(c, c) for c in pos] for pos in bd["r"]]) if bd.get("r") else dict(bd)
+                   for bd in case["ballots"]]
+            try:
+                E.run(rule, C.mk_profile(bl2, case["cands"]), cfg, case["rng"])
+                out.label("decoy_election")
+            except Exception:  # noqa: BLE001
+                pass
     prof_ops = []
     with R.owned(case["rng"].get("seed", 0), case["rng"].get("script")) as layer:
         for op, idx in case["ops"]:
